@@ -1,0 +1,21 @@
+//go:build verif
+
+package goa
+
+// VerifPatternCache returns a snapshot of the compiled pattern cache
+// (pattern text -> Regexp.String()) taken under the cache's own lock. It is
+// only compiled with the "verif" build tag and is used by runtime monitors to
+// check the cache invariant at quiescent points.
+func VerifPatternCache() map[string]string {
+	knownPatternsLock.RLock()
+	defer knownPatternsLock.RUnlock()
+	res := make(map[string]string, len(knownPatterns))
+	for k, r := range knownPatterns {
+		if r == nil {
+			res[k] = "<nil>"
+			continue
+		}
+		res[k] = r.String()
+	}
+	return res
+}
